@@ -93,6 +93,9 @@ pub enum Op {
     /// leave the actor idle for longer than HANDLER_LIMIT, then call a handler that awaits a few times and
     /// is done within a few milliseconds: the limit is per invocation, however long the actor has lived
     IdleThenYieldingGet,
+    /// spawn `n` more (idle) actors through spawn / spawn_owning / the builder, ask each of them once, drop
+    /// them: every spawned actor runs, however many are alive
+    Crowd { n: u16 },
     /// send a message, then block the calling thread (no await) until the actor has handled it: a
     /// spawned actor makes progress on its own, whatever the task that spawned it does
     BlockingProbe,
@@ -255,6 +258,18 @@ impl Handler<Add> for Counter {
 impl Handler<Get> for Counter {
     async fn handle(&mut self, _ctx: &mut Context<Self>, _m: Get) -> i64 {
         self.sum
+    }
+}
+/// an idle bystander (no statistics: the record counts `Counter` only)
+struct Cell(usize);
+impl Actor for Cell {}
+struct CellGet;
+impl Message for CellGet {
+    type Response = usize;
+}
+impl Handler<CellGet> for Cell {
+    async fn handle(&mut self, _ctx: &mut Context<Self>, _m: CellGet) -> usize {
+        self.0
     }
 }
 struct YieldingGet;
@@ -785,6 +800,32 @@ async fn run_program(p: &Program) -> Record {
                 }
                 None => "skip".into(),
             },
+            Op::Crowd { n } => {
+                let mut owners = vec![];
+                let mut addrs = vec![];
+                for i in 0..*n as usize {
+                    match i % 3 {
+                        0 => addrs.push(Cell(i).spawn()),
+                        1 => {
+                            let o = hannibal::spawner::Spawnable::spawn_owning(Cell(i));
+                            addrs.push(o.to_addr());
+                            owners.push(o);
+                        }
+                        _ => addrs.push(hannibal::build(Cell(i)).unbounded().spawn()),
+                    }
+                }
+                let mut out = "all-answered".to_string();
+                for (i, a) in addrs.iter().enumerate() {
+                    let r = g!(a.call(CellGet));
+                    if r != format!("Ok({i})") {
+                        out = format!("crowd-member-{r}");
+                        break;
+                    }
+                }
+                drop(addrs);
+                drop(owners);
+                out
+            }
             Op::Pause => {
                 hannibal::runtime::sleep(Duration::from_millis(2)).await;
                 "ok".into()
@@ -963,6 +1004,11 @@ mod generate {
             } else {
                 entry
             };
+            // many live actors at once: one program in 80
+            if id % 80 == 63 {
+                let at = (id as usize / 80) % 3;
+                ops.insert(at.min(ops.len()), Op::Crowd { n: 520 + ((id / 80) % 4) as u16 * 40 });
+            }
             if id % 40 == 27 {
                 let at = (id as usize / 40) % 3;
                 ops.insert(at.min(ops.len()), Op::TimedTicks { with: (id / 40) % 2 == 1, k: 20, period_us: 900 });
